@@ -20,15 +20,21 @@ const semicolon = ";" // From grpcinterceptors.go in onos-lib-go
 // TODO replace the following with fine grained RBAC using OpenPolicyAgent Rego in 2021 Q2
 func TemporaryEvaluate(md metautils.NiceMD) error {
 	adminGroups := os.Getenv("ADMINGROUPS")
-	var match bool
+	// A request that carries no identity metadata at all was not authenticated (security is off):
+	// there is no caller to evaluate.
+	if md.Get("preferred_username") == "" && md.Get("name") == "" && md.Get("email") == "" && md.Get("groups") == "" {
+		return nil
+	}
+	admins := strings.FieldsFunc(adminGroups, func(r rune) bool { return r == ',' || r == ';' || r == ' ' })
 	for _, g := range strings.Split(md.Get("groups"), semicolon) {
-		if strings.Contains(adminGroups, g) {
-			match = true
-			break
+		if g == "" {
+			continue
+		}
+		for _, admin := range admins {
+			if g == admin {
+				return nil
+			}
 		}
 	}
-	if !match {
-		return status.Errorf(codes.Unauthenticated, "Set allowed only for %s", adminGroups)
-	}
-	return nil
+	return status.Errorf(codes.Unauthenticated, "Set allowed only for %s", adminGroups)
 }
